@@ -143,6 +143,18 @@ CHECKS['C11'] = dict(cat='other', engine='symnp',
     note=NOTE_SYM + '; tuple-shape key columns have the same dtype on both sides (mixed dtypes: recorded finding '
          'C11/tuple-keys-bytewise); in cyclic join graphs only termination is claimed (two routes exist)')
 
+CHECKS['C09'] = dict(cat='other', engine='symnp',
+    technique='symbolic execution of roi_to_subset_state and the returned selection classes (symbolic region parameters and numeric values, solver-enumerated category orders) + SMT',
+    text='For the four axis-kind combinations, every listed ordering of three categories, ranges / RangeROI / rectangles with '
+         'symbolic bounds and polygon-like regions (triangle, concave L, box; circle and ellipse) with a symbolic translation, '
+         'and symbolic numeric values (NaN included), z3 proves that a row is selected iff its plotted position (category index '
+         'for categorical axes) lies in the region, outside a boundary band. Code reached: roi_to_subset_state (all branches), '
+         'CategoricalROI.from_range/contains, CategoricalROISubsetState, CategoricalROISubsetState2D, '
+         'CategoricalMultiRangeSubsetState, polygon_line_intersections, points_inside_poly, RoiSubsetState.', ref='5/C09',
+    note=NOTE_SYM + '; S-path stub for Path.contains_points; polygon shapes are listed (translation symbolic); circle/ellipse '
+         'approximation polygon reduced from 100 to 8 vertices while exploring (band widened to the sagitta), mixed-axis '
+         'circle/ellipse only in the thorough tier; int()/np.intp() of symbolic reals answered by solver enumeration')
+
 NOT_YET = {}
 
 NOT_APPLICABLE = {
